@@ -27,3 +27,29 @@ Theorem C16_dangling_free_is_closed : forall tr, dfree tr ->
   forall b, In b tr -> forall x, In x (built_blocks b) -> In x tr.
 Proof. exact dfree_closed. Qed.
 Print Assumptions C16_dangling_free_is_closed.
+
+(* ---- directories ---- *)
+From UV Require Import Hamt.Build Build.DirStoreProofs.
+Local Open Scope N_scope.
+
+(* BuildUnixFSShardedDirectory for EVERY fanout, entry list (entries stored earlier, i.e. external to this build) and
+   EVERY plan of failing opens/commits: at every interruption point no committed shard has a dangling link to a shard
+   of the same build; an error comes without a link; a link comes only after the whole shard DAG was committed *)
+Theorem C16_sharded_directory_store_safe : forall fo fc size entries lnk sz err s',
+  (forall e, In e entries -> is_ext (e_target e) = true) ->
+  BuildUnixFSShardedDirectory fo fc size HashMurmur3 entries ws0 = ((lnk, sz, err), s') ->
+  (forall pre post, ws_trace s' = pre ++ post -> dfree pre)
+  /\ (err <> None -> lnk = None)
+  /\ (err = None -> exists root, lnk = Some root /\ (forall x, In x (built_blocks root) -> In x (ws_trace s'))
+                               /\ no_failure fo fc s' /\ clean s').
+Proof. exact sharded_build_store_safe. Qed.
+Print Assumptions C16_sharded_directory_store_safe.
+
+Theorem C16_plain_directory_store_safe : forall fo fc entries lnk sz err s',
+  (forall e, In e entries -> is_ext (e_target e) = true) ->
+  BuildUnixFSDirectoryPlain fo fc entries ws0 = ((lnk, sz, err), s') ->
+  (forall pre post, ws_trace s' = pre ++ post -> dfree pre)
+  /\ (err <> None -> lnk = None)
+  /\ (err = None -> lnk = Some (fst (build_plain entries)) /\ In (fst (build_plain entries)) (ws_trace s')).
+Proof. exact plain_build_store_safe. Qed.
+Print Assumptions C16_plain_directory_store_safe.
